@@ -128,7 +128,7 @@ def run_case(ctx, case):
         libgen.write_files(d, case["files"])
     else:
         libgen.generate(random.Random(case["libseed"]), "liba", size=case.get("size", 1.0), ordering=True,
-                        n_classes=4).write(d)
+                        n_classes=4, ext=True).write(d)
     opts = BACKENDS[case["backend"]]
     base = one_run(b, d, opts, dict(kind="none"))
     if base["_rc"] != 0 or base["oc"] is None:
